@@ -52,7 +52,16 @@ VALUES = [None, True, False, 0, 1, -1, 2 ** 70, 1.5, '', 'a', 'A', 'nosuch', '*'
 
 def gen_frame(rnd, cmds, names, pids):
     """-> (bytes, meta) where meta = {'cls':..., 'id': expected id or marker, 'cast': bool, 'cmd': str|None}"""
-    c = rnd.choice(['bytes', 'shape', 'fields', 'fields', 'command', 'command', 'command', 'latefail'])
+    c = rnd.choice(['bytes', 'shape', 'fields', 'fields', 'command', 'command', 'command', 'latefail', 'unserialisable'])
+    if c == 'unserialisable' and 'q' in names:
+        # a reply that cannot be JSON-encoded (watcher created through the embedding API with a stream object)
+        mid = 'u-%d' % rnd.randint(0, 10 ** 6)
+        cmd, props = rnd.choice([('options', {'name': 'q'}), ('get', {'name': 'q', 'keys': ['stdout_stream_conf']}),
+                                 ('options', {'name': 'Q', 'waiting': True})])
+        return json.dumps({'id': mid, 'command': cmd, 'properties': props}).encode(), \
+            {'cls': 'command', 'id': mid, 'cast': False, 'cmd': cmd, 'props': props}
+    if c == 'unserialisable':
+        c = 'command'
     if c == 'bytes':
         b = rnd.choice([b'', b' ', b'\n\t ', b'\x00', b'\xff\xfe', os.urandom(rnd.randint(1, 40)) if False else
                         bytes(rnd.randrange(256) for _ in range(rnd.randint(1, 40))),
@@ -168,7 +177,15 @@ def _daemon(w, h, rnd, res):
     yield simhist.boot(w, h)
     yield w.settle(30)
     cmds = commands()
-    names = ['a', 'b', 'g', 'h', 'e']
+    names = ['a', 'b', 'g', 'h', 'e', 'q']
+
+    class Sink:                     # embedding-API style stream object: not JSON-serialisable
+        def __call__(self, data):
+            pass
+    try:
+        w.arb.add_watcher('q', 'w_q', stdout_stream={'stream': Sink()}, graceful_timeout=0.1)
+    except Exception:
+        names.remove('q')
     frames = h.get('frames')
     n = 14 if frames is None else len(frames)
     sent = []
@@ -210,6 +227,8 @@ def _daemon(w, h, rnd, res):
                 mech = frame_class(payload, meta)
                 if npairs == 0 and any('TransformableFuture._internal_callback' in e[4] for e in swallowed):
                     mech = 'waiting-operation-raised:TransformableFuture-re-raises'
+                if len(mine) % 2:
+                    mech += ',odd-number-of-frames'
                 res.violation('C06/reply-count[%s]:%d-instead-of-%d' % (mech, npairs, want),
                               '%s: %d reply frames written, expected %d pair(s); swallowed exceptions: %s'
                               % (ctx, len(mine), want, swallowed[-1:] if swallowed else 'none'), **detail)
